@@ -20,7 +20,7 @@ EXPLANATION = (
     'doc_close evaluated: one forwarded open / close of the requested document, failure reported. (R6) the drop handler '
     'evaluated on {not open, 1, 2, 5 handles} against a store that refuses while the document is open: a refused drop '
     'leaves the handle count untouched. (R7) reply streams accepted before the actor stops are driven to their end before '
-    'anything is aborted (reports F25, known finding). (R8) every per-document request of the store actor and every SyncHandle method (the store-actor handler evaluated with the fields of the request as named tokens and gates / store / replica calls answered by an oracle, each step also failing in turn: the own fields of the request reach the core function in order on the addressed document, nothing is carried out after a failed step, the reply is the result of that function; the SyncHandle method evaluated: one request of its own kind, addressed to its namespace argument, each field one of its own parameters, the reply of the actor returned). (R9) LiveActor::start_sync / leave evaluated against a model of the set of joined documents: one open (sync on, subscribed) iff not joined yet, marked as joined only after that open succeeded, exactly one close on leaving a joined document, none otherwise. NOT decided: behaviour with several concurrent clients beyond the '
+    'anything is aborted (reports F25, known finding). (R8) every per-document request of the store actor and every SyncHandle method (the store-actor handler evaluated with the fields of the request as named tokens and gates / store / replica calls answered by an oracle, each step also failing in turn: the own fields of the request reach the core function in order on the addressed document, nothing is carried out after a failed step, the reply is the result of that function; the SyncHandle method evaluated: one request of its own kind, addressed to its namespace argument, each field one of its own parameters, the reply of the actor returned). (R9) LiveActor::start_sync / leave evaluated against a model of the set of joined documents: one open (sync on, subscribed) iff not joined yet, marked as joined only after that open succeeded, exactly one close on leaving a joined document, none otherwise. (R10) = C06.R4 failing-body rows: acknowledged writes survive a later failing request. NOT decided: behaviour with several concurrent clients beyond the '
     'single-consumer loop.'
 )
 ASSUMPTIONS = ["the action loop is the only consumer of the action channel", "tracing macro expansions are effect-free"]
@@ -509,6 +509,13 @@ def r9(ctx):
     ctx.floor("C14.R9", 5)
 
 
+def r10(ctx):
+    """"shutdown hands back a store containing every acknowledged write": a request that fails later must not take the shared write
+    transaction - and the acknowledged writes in it - with it (shared with C06.R4)"""
+    from . import C06
+    C06.share_failing_body(ctx, "C14.R10")
+
+
 def run(ctx):
     ctx.run_rule("C14.R1", r1)
     ctx.run_rule("C14.R2", r2)
@@ -519,3 +526,4 @@ def run(ctx):
     ctx.run_rule("C14.R7", r7)
     ctx.run_rule("C14.R8", r8)
     ctx.run_rule("C14.R9", r9)
+    ctx.run_rule("C14.R10", r10)
